@@ -64,4 +64,14 @@ PROPS = {
         "assumptions": ["MLE theorems: exact arithmetic, positive finite cardinal estimates"],
         "theorems": ["PMH.C14.countEq_comm", "PMH.C14.countEq_self", "PMH.C14.countEq_mismatch", "PMH.C14.countEq_ok", "PMH.C14.gss_contained", "PMH.C14.start_in_bracket", "PMH.C14.getMle_total"],
     },
+    "C20": {
+        "module": "PMH.Props.C20",
+        "level_text": "partial: byte-level model of what dump_json writes and what reload_json accepts; theorems: reload(dump(p)) returns m, q exactly and the float tokens verbatim (parse_serialize), and EVERY proper prefix of a dumped file is rejected, for every parameter tuple and every cut point (prefix_rejected: the only closing brace is the last byte). Tied to the code by writing real dumps for random parameters (long decimal expansions, subnormal, 1e+-300, u64::MAX) and calling the real reload_json on the full file and on each of its prefixes (exhaustive per file): result class must equal the model's. The value clause for a,b (exact up to 15 digits, else <= 1 ulp) is an implementation-only oracle because float printing/parsing (ryu, serde_json) is external.",
+        "level_note": "trusted: Lean kernel; model + correspondence; ryu/serde_json number formatting and parsing; 'a crash leaves a prefix of the file' is an assumption about BufWriter and the filesystem; NaN/inf parameters (written as null) are outside the property",
+        "rule": "random parameter tuples (8 float classes x 4 m classes x 3 q classes); for each: dump, compare bytes with the model, reload, then truncate the file at EVERY byte offset 0..len-1 and reload again (catch_unwind); non-trivial = every dump case; distinct = distinct file contents",
+        "trusted_base": TB_COMMON + ["ryu / serde_json float printing and parsing (external)", "filesystem + BufWriter: a crash during dump leaves a prefix"],
+        "not_mechanised": ["value equality of a,b after reload (exact <= 15 digits, else within 1 ulp): checked by the harness oracle on every generated file, not a theorem"],
+        "assumptions": ["finite a, b", "torn file = prefix of the complete file"],
+        "theorems": ["PMH.C20.prefix_rejected", "PMH.C20.parse_serialize"],
+    },
 }
